@@ -428,8 +428,10 @@ def r6_seeding(ctx, rule):
     iq = PQ + '__init__'
     ifn = ctx.fn(iq)
     pushed = False
+    ifn_stores = stores_in(ifn)
     for n in walk_local(ifn):
-        if isinstance(n, ast.For) and isinstance(n.iter, ast.Call) and call_name(n.iter) == 'self.pcfg.initalize_base_structures':
+        it_ = expand(ifn, n.iter, ifn_stores) if isinstance(n, ast.For) else None
+        if isinstance(n, ast.For) and isinstance(it_, ast.Call) and call_name(it_) == 'self.pcfg.initalize_base_structures' and not pushed:
             tv = n.target.id if isinstance(n.target, ast.Name) else None
             for s in n.body:
                 if isinstance(s, ast.Expr) and isinstance(s.value, ast.Call):
